@@ -21,6 +21,10 @@ RE_POOL = [
 ]
 
 CORPUS = [
+    # round-8 change C02-8A: another live object prepared the same pattern text with the other ignorecase setting
+    dict(mode='b', twin=True, ops=[dict(k='r', W=None, pats=[['re', 's', ['chr', 97]]])], script=[['d', 'Aa']]),
+    dict(mode='u', twin=True, ops=[dict(k='r', W=None, ic=True, pats=[['re', 'si', ['chr', 97]]]), dict(k='r', W=None, pats=[['re', 's', ['chr', 97]]])],
+         script=[['d', 'xAa'], ['d', 'Aa']]),
     # defect #1 (fixed): zero-width match at the end of the window dropped pending text
     dict(mode='b', ops=[dict(k='r', W=None, pats=[['re', 's', ['eol']]])], script=[['d', 'abc']]),
     dict(mode='u', ops=[dict(k='x', W=None, pats=[['s', 'zz'], ['T']]), dict(k='x', W=None, pats=[['s', '']])], script=[['d', 'abc'], ['T']]),
@@ -224,6 +228,8 @@ def rand_case(rng, maxlen=40, maxops=6):
     case = dict(mode=mode, ops=ops, script=script)
     if rng.random() < 0.15:
         case['maxread'] = rng.choice([1, 2, 3, 5])        # reads that come back exactly as long as maxread (or longer)
+    if rng.random() < 0.3:
+        case['twin'] = True          # another live object prepares the same pattern texts with the other ignorecase setting in between
     return case
 
 
